@@ -20,7 +20,7 @@ def main():
     demo = os.path.join(out, f"{letter}_demo.rs")
     meta = json.load(open(os.path.join(out, f"{letter}_meta.json")))
     wt = tempfile.mkdtemp(prefix="verif-confirm-", dir="/tmp"); os.rmdir(wt)
-    env = dict(os.environ, CARGO_NET_OFFLINE="true", CARGO_TARGET_DIR="/tmp/verif-mut-target/repo")
+    env = dict(os.environ, CARGO_NET_OFFLINE="true", CARGO_TARGET_DIR=os.environ.get("CONFIRM_TARGET", "/tmp/verif-mut-target/repo"))
     log = {}
     ok = False
     try:
